@@ -695,23 +695,24 @@ impl Authentication for AuthenticationBuiltin {
   ) -> SecurityResult<(ValidationOutcome, Option<HandshakeMessageToken>)> {
     // Check what is the handshake state
     let remote_identity_handle = *self.handshake_handle_to_identity_handle(&handshake_handle)?;
-    let remote_info = self.get_remote_participant_info_mutable(&remote_identity_handle)?;
-
-    // This trickery is needed because BuiltinHandshakeState contains
-    // key pairs, which cannot be cloned. We just move the "state" out and leave
-    // a dummy value behind. At the end of this function we will overwrite the
-    // dummy.
-    let mut state = BuiltinHandshakeState::PendingRequestSend; // dummy to leave behind
-    std::mem::swap(&mut remote_info.handshake.state, &mut state);
+    let remote_info = self.get_remote_participant_info(&remote_identity_handle)?;
 
     let local_info = self.get_local_participant_info()?;
 
-    match state {
+    // BuiltinHandshakeState contains key pairs, which cannot be cloned, so the
+    // state is inspected through a reference while the incoming message is
+    // validated. The key pair is moved out (leaving a dummy value behind for a
+    // moment) only after every check has passed. This way an invalid message
+    // returns an error and leaves the handshake state exactly as it was, so
+    // the genuine message can still be processed afterwards.
+    match &remote_info.handshake.state {
       BuiltinHandshakeState::PendingReplyMessage {
         dh1,
         challenge1,
         hash_c1,
       } => {
+        let (challenge1, hash_c1) = (challenge1.clone(), hash_c1.clone());
+
         // We are the initiator, and expect a reply.
         // Result is that we produce a MassageToken (i.e. send the final message)
         // and the handshake results (shared secret)
@@ -837,9 +838,6 @@ impl Authentication for AuthenticationBuiltin {
 
         let dh1_public_key = dh1.public_key_bytes()?;
 
-        // Compute the shared secret
-        let shared_secret = dh1.compute_shared_secret(reply.dh2.clone())?;
-
         // Create signature for final message:
         // Sign( Hash(C1) | Challenge1 | DH1 | Challenge2 | DH2 | Hash(C2) ), see Table
         // 51
@@ -880,7 +878,7 @@ impl Authentication for AuthenticationBuiltin {
           hash_c1: Some(Bytes::copy_from_slice(hash_c1.as_ref())), // spec says this is optional
           dh1: Some(dh1_public_key), // spec says this is optional
           hash_c2: Some(Bytes::copy_from_slice(c2_hash_recomputed.as_ref())), // also optional
-          dh2: Some(reply.dh2), // also optional
+          dh2: Some(reply.dh2.clone()), // also optional
 
           // Only the following three parts are mandatory
           challenge1: Some(Bytes::copy_from_slice(reply.challenge1.as_ref())),
@@ -888,8 +886,24 @@ impl Authentication for AuthenticationBuiltin {
           signature: Some(final_contents_signature),
         };
 
-        // Change handshake state to Completed & save the final message token
+        // All checks have passed: take the key pair out of the stored state and
+        // compute the shared secret
         let remote_info = self.get_remote_participant_info_mutable(&remote_identity_handle)?;
+        let dh1 = match std::mem::replace(
+          &mut remote_info.handshake.state,
+          BuiltinHandshakeState::PendingRequestSend, // dummy, overwritten below
+        ) {
+          BuiltinHandshakeState::PendingReplyMessage { dh1, .. } => dh1,
+          other_state => {
+            remote_info.handshake.state = other_state;
+            return Err(create_security_error_and_log!(
+              "Handshake state changed unexpectedly"
+            ));
+          }
+        };
+        let shared_secret = dh1.compute_shared_secret(reply.dh2)?;
+
+        // Change handshake state to Completed & save the final message token
         remote_info.handshake.state = BuiltinHandshakeState::CompletedWithFinalMessageSent {
           challenge1,
           challenge2: reply.challenge2,
@@ -915,6 +929,14 @@ impl Authentication for AuthenticationBuiltin {
         challenge2,
         remote_id_certificate,
       } => {
+        let (hash_c1, hash_c2, dh1_public, challenge1, challenge2) = (
+          hash_c1.clone(),
+          hash_c2.clone(),
+          dh1_public.clone(),
+          challenge1.clone(),
+          challenge2.clone(),
+        );
+
         // We are the responder, and expect the final message.
         // Result is that we do not produce a MassageToken, since this was the final
         // message, but we compute the handshake results (shared secret)
@@ -1007,11 +1029,24 @@ impl Authentication for AuthenticationBuiltin {
             )
           })?;
 
-        // Compute the shared secret
+        // All checks have passed: take the key pair out of the stored state and
+        // compute the shared secret
+        let remote_info = self.get_remote_participant_info_mutable(&remote_identity_handle)?;
+        let dh2 = match std::mem::replace(
+          &mut remote_info.handshake.state,
+          BuiltinHandshakeState::PendingRequestSend, // dummy, overwritten below
+        ) {
+          BuiltinHandshakeState::PendingFinalMessage { dh2, .. } => dh2,
+          other_state => {
+            remote_info.handshake.state = other_state;
+            return Err(create_security_error_and_log!(
+              "Handshake state changed unexpectedly"
+            ));
+          }
+        };
         let shared_secret = dh2.compute_shared_secret(dh1_public)?;
 
         // Change handshake state to Completed
-        let remote_info = self.get_remote_participant_info_mutable(&remote_identity_handle)?;
         remote_info.handshake.state = BuiltinHandshakeState::CompletedWithFinalMessageReceived {
           challenge1,
           challenge2,
